@@ -204,9 +204,12 @@ impl LogState {
                 // In 'follow' mode, might get a line with no trailing \n
                 // (eg. when ./configure is halfway through a test), which we
                 // deal with below.
-                let mut line = String::new();
-                f.read_line(&mut line)?;
-                line
+                // Read bytes, not UTF-8: a script may write anything to stderr (a compiler
+                // quoting Latin-1 source, binary garbage), and one such byte must not end
+                // the viewer -- and with it everything that would have been shown after.
+                let mut raw = Vec::new();
+                f.read_until(b'\n', &mut raw)?;
+                String::from_utf8_lossy(&raw).into_owned()
             } else {
                 String::new()
             };
